@@ -18,6 +18,7 @@ func c20Alphabet(c Cfg) []Op {
 		{K: "put", Key: "a", VC: "L", Dev: true},
 		{K: "put", Key: "b", VC: "L", Dev: true},
 		{K: "put", Key: "b", VC: "M", Dev: true},
+		{K: "put", Key: "a", VC: "Z", Dev: true},
 		{K: "merge", Dev: true},
 		{K: "restart", Dev: true},
 		{K: "batch", Sub: []Op{{K: "put", Key: "a", VC: "S"}, {K: "put", Key: "b", VC: "S"}}, Dev: true},
